@@ -126,6 +126,12 @@ Proof. vm_compute. repeat split; reflexivity. Qed.
 Theorem C01_restorer_starts_from_init_state : restorefile_starts_from_init_state = true.
 Proof. vm_compute. reflexivity. Qed.
 
+(* Decorator.DecorateNode fragments and links the files of a package one at a time on an emptied
+   fragment list (directory parsing): what the models say about a File root holds for each file of
+   a package; no comment or line break of one file can reach a node of another. *)
+Theorem C01_package_files_decorated_one_at_a_time : package_files_decorated_one_at_a_time = true.
+Proof. vm_compute. reflexivity. Qed.
+
 
 Print Assumptions C01_fragments_cover_every_part.
 Print Assumptions C01_restorer_mirrors_decorator.
@@ -136,3 +142,4 @@ Print Assumptions C01_spacing_renders_the_same_breaks.
 Print Assumptions C01_link_spacing_is_applied.
 Print Assumptions C01_trailing_comment_goes_to_end.
 Print Assumptions C01_restorer_starts_from_init_state.
+Print Assumptions C01_package_files_decorated_one_at_a_time.
